@@ -187,6 +187,12 @@ def check(run, views, tier, with_ops=True):
                                 t, pol = truth(c)
                                 if is_call(t) and not pol:
                                     mc = membership_const(F, t[1], run)
+                                    if mc is None and is_call(t, "core::slice::<impl [T]>::contains") and len(t[2]) == 2:
+                                        mc = const_of(t[2][0])          # the membership test written in place: L.contains(&name)
+                                    if mc is None and is_call(t, "std::iter::Iterator::any") and len(t[2]) == 2 and const_of(t[2][0]) and t[2][1][0] == "closure":
+                                        cp = closure_paths(b, t[2][1])
+                                        if len(cp) == 1 and cp[0].ret[0] == "bin" and cp[0].ret[1] == "Eq":
+                                            mc = const_of(t[2][0])      # L.iter().any(|x| x == name)
                                     if mc:
                                         guard_const = mc
                             run.ob("R-ORDERLIST", "unordered emission is filtered by non-membership in the ordered list",
